@@ -1,10 +1,11 @@
 /-
-  C07 — No sequence of received frames can stop, stall or permanently clog the stack.   (J1939-21 part)
+  C07 — No sequence of received frames can stop, stall or permanently clog the stack.   (J1939-21, then J1939-22)
   `WF` is an invariant of the session tables under EVERY frame (any identifier, any data, also when the handler
   raises), every send_pgn call and every background pass; from a `WF` state the pass never raises, never asks for a
   wake-up that is not in the future (no busy spin), and leaves no record whose deadline has passed.
 -/
 import J1939.Lemmas.Dll21Tick
+import J1939.Lemmas.Dll22Tick
 namespace J1939.Props.C07
 open J1939 J1939.Gen J1939.Dll21
 
@@ -99,5 +100,69 @@ theorem c07_timeouts_bounded :
 /-- non-vacuity: a well-formed state with a waiting and a sending record -/
 example : WF (sendPgn {} (sendPgn {} {} 5 0 208 32 6 16 (List.replicate 20 1)).1.st 6 0 254 1 6 16 (List.replicate 9 2)).1.st :=
   c07_wf_sendPgn _ _ _ _ _ _ _ _ _ (by decide) (c07_wf_sendPgn _ _ _ _ _ _ _ _ _ (by decide) c07_wf_init)
+
+end J1939.Props.C07
+
+/-! ## J1939-22 (FD) -/
+namespace J1939.Props.C07
+open J1939 J1939.Gen
+
+/-- J1939-22: `WF` (unique keys in the three tables; every receive record has a deadline; every send record has a
+    deadline, a session number inside its pool, chunk data that covers its segment count, a stored wait-on segment and
+    a next segment >= -1 while sending in a window, a next segment inside the message while broadcasting; every multi-PG
+    buffer fits one frame; both pools have their size) holds initially -/
+theorem c07_22_wf_init : Dll22.WF {} := Dll22.wf_init
+
+/-- J1939-22: EVERY received frame — any identifier, any payload (FD.TP.CM with any control byte, session, size,
+    segment number; FD.TP.DT; multi-PG; anything else), accepted or not, also when the handler raises — keeps `WF` -/
+theorem c07_22_wf_notify (cfg : Dll22.Cfg) (s : Dll22.St) (now : Nat) (acc : Nat → Bool) (canId : Nat) (data : List Nat)
+    (hnow : 0 < now) (hwf : Dll22.WF s) : Dll22.WF (Dll22.notify cfg s now acc canId data).st :=
+  Dll22.notify_wf cfg s now acc canId data hnow hwf
+
+/-- J1939-22: every `send_pgn` — short or long, refused or accepted, any time limit and frame format — keeps `WF` -/
+theorem c07_22_wf_sendPgn (cfg : Dll22.Cfg) (s : Dll22.St) (now dp pf ps prio sa : Nat) (data : List Nat) (tl ff : Nat)
+    (hc : Dll22.CfgPos cfg) (hwf : Dll22.WF s) : Dll22.WF (Dll22.sendPgn cfg s now dp pf ps prio sa data tl ff).1.st :=
+  Dll22.sendPgn_wf cfg s now dp pf ps prio sa data tl ff hc hwf
+
+/-- J1939-22, THE PASS SURVIVES AND SLEEPS: from a well-formed state, at any time — no exception (no KeyError, no
+    IndexError from negative or too large segment numbers a hostile CTS stored, from the FD length table or from the
+    session pools), `WF` afterwards, and the requested wake-up is strictly in the future (no busy spin) -/
+theorem c07_22_pass_ok (cfg : Dll22.Cfg) (s : Dll22.St) (now : Nat) (hc : Dll22.CfgPos cfg) (hwf : Dll22.WF s) :
+    (Dll22.tick cfg s now).1.err = none ∧ Dll22.WF (Dll22.tick cfg s now).1.st ∧ now < (Dll22.tick cfg s now).2 :=
+  Dll22.tick_ok cfg s now hc hwf
+
+/-- J1939-22, ANY HISTORY: sends, received frames (arbitrary) and background passes in any order at any positive
+    times keep `WF`; so no pass of any history raises and none spins -/
+inductive Ev22 where
+  | send (now dp pf ps prio sa : Nat) (data : List Nat) (tl ff : Nat)
+  | rx (now canId : Nat) (data : List Nat)
+  | pass (now : Nat)
+
+def Ev22.now : Ev22 → Nat
+  | .send n .. => n | .rx n .. => n | .pass n => n
+
+def step22 (cfg : Dll22.Cfg) (acc : Nat → Bool) (s : Dll22.St) : Ev22 → Dll22.St
+  | .send now dp pf ps prio sa data tl ff => (Dll22.sendPgn cfg s now dp pf ps prio sa data tl ff).1.st
+  | .rx now canId data => (Dll22.notify cfg s now acc canId data).st
+  | .pass now => (Dll22.tick cfg s now).1.st
+
+theorem c07_22_history_wf (cfg : Dll22.Cfg) (acc : Nat → Bool) (hc : Dll22.CfgPos cfg) (evs : List Ev22) (s : Dll22.St)
+    (hwf : Dll22.WF s) (hpos : ∀ e ∈ evs, 0 < e.now) : Dll22.WF (evs.foldl (step22 cfg acc) s) := by
+  induction evs generalizing s with
+  | nil => exact hwf
+  | cons e es ih =>
+    simp only [List.foldl_cons]
+    apply ih _ _ (fun e' he' => hpos e' (by simp [he']))
+    have hp := hpos e (by simp)
+    cases e with
+    | send now dp pf ps prio sa data tl ff => exact c07_22_wf_sendPgn cfg s now dp pf ps prio sa data tl ff hc hwf
+    | rx now canId data => exact c07_22_wf_notify cfg s now acc canId data hp hwf
+    | pass now => exact (c07_22_pass_ok cfg s now hc hwf).2.1
+
+theorem c07_22_never_raises_never_spins (cfg : Dll22.Cfg) (acc : Nat → Bool) (hc : Dll22.CfgPos cfg) (evs : List Ev22)
+    (hpos : ∀ e ∈ evs, 0 < e.now) (now : Nat) :
+    (Dll22.tick cfg (evs.foldl (step22 cfg acc) {}) now).1.err = none ∧ now < (Dll22.tick cfg (evs.foldl (step22 cfg acc) {}) now).2 :=
+  let h := c07_22_pass_ok cfg _ now hc (c07_22_history_wf cfg acc hc evs {} c07_22_wf_init hpos)
+  ⟨h.1, h.2.2⟩
 
 end J1939.Props.C07
